@@ -6,6 +6,7 @@ CONSTANTS
   Pool <- MCPool
   Units <- MCUnits
   Scalars <- MCScalars
+  Uncs <- MCUncs
   Powers <- MCPowers
   Roots <- MCRoots
 INIT Init
